@@ -14,6 +14,7 @@ import tempfile
 
 HERE = os.path.dirname(os.path.dirname(os.path.abspath(__file__)))
 sys.path.insert(0, HERE)
+from engine.selftest import package_part
 
 
 def main():
@@ -24,7 +25,7 @@ def main():
     try:
         shutil.copytree(os.path.join(repo, "cincoconfig"), os.path.join(tmp, "cincoconfig"),
                         ignore=shutil.ignore_patterns("__pycache__"))
-        r = subprocess.run(["patch", "-p1", "-s", "-i", patch], cwd=tmp, capture_output=True, text=True)
+        r = subprocess.run(["patch", "-p1", "-s", "-i", package_part(patch)], cwd=tmp, capture_output=True, text=True)
         if r.returncode != 0:
             print("PATCH-FAILED", r.stdout, r.stderr)
             return 3
